@@ -21,13 +21,13 @@ open LineBuffer (Str)
 (T and the types it refers to, the options, the templates, the tool version). -/
 inductive Src where
   | time | absPath | platform | hashOrder | random
-  | siblings | psUniqueName | psMemo | psTemplateCache
+  | siblings | psUniqueName | psMemo | psTemplateCache | psModelCache
 deriving DecidableEq, Repr, Inhabited
 
 /-- What a run may differ in for C07: clock, location/cwd, platform data, hash seed, random numbers. -/
 def Src.c07 : List Src := [.time, .absPath, .platform, .hashOrder, .random]
 /-- What a run may differ in for C10: sibling types and process-wide state left by earlier files / runs. -/
-def Src.c10 : List Src := [.siblings, .psUniqueName, .psMemo, .psTemplateCache]
+def Src.c10 : List Src := [.siblings, .psUniqueName, .psMemo, .psTemplateCache, .psModelCache]
 
 structure Leaf where
   id      : Nat
